@@ -114,7 +114,9 @@ EncR(t, v) ==
                     ELSE In(LE(Len(v.s), t.lw) \o Utf16Enc(v.s)))
     [] t.k = "fixedstr" ->
          IF ~IsS(v) THEN OutR
-         ELSE IF Len(v.s) > t.cap THEN UnspecR            \* cut to capacity or refused: fixed at driver level (C02)
+         ELSE IF "capn" \in DOMAIN t /\ Len(v.s) > t.capn                \* a Logix string tag: longer values are cut to the capacity
+              THEN (IF Latin1Ok(SubSeq(v.s, 1, t.capn)) THEN In(LE(t.capn, t.lw) \o SubSeq(v.s, 1, t.capn) \o Zeros(t.cap - t.capn)) ELSE OutR)
+         ELSE IF Len(v.s) > t.cap THEN UnspecR            \* bare codec: cut to capacity or refused, not fixed by the property
          ELSE IF ~Latin1Ok(v.s) THEN OutR
          ELSE In(LE(Len(v.s), t.lw) \o v.s \o Zeros(t.cap - Len(v.s)))
     [] t.k = "stringn" ->
